@@ -76,11 +76,11 @@ def gen_history(rnd):
         if k <= 4:
             ops.append(("assert", g.term(BOOL, rnd.randint(1, 3))))
         elif k == 5:
-            lv = rnd.choice([1, 1, 2])
+            lv = rnd.choice([1, 1, 2, 0])
             ops.append(("push", lv))
             depth += lv
-        elif k == 6 and depth > 0:
-            lv = rnd.randint(1, min(2, depth))
+        elif k == 6 and (depth > 0 or rnd.random() < 0.3):
+            lv = rnd.randint(0, min(2, depth))
             ops.append(("pop", lv))
             depth -= lv
         elif k in (7, 8):
